@@ -197,8 +197,10 @@ def _predicate_body(fi: FuncInfo) -> Optional[List[Tuple[List[Tuple[ast.AST, boo
                 continue  # docstring
             if isinstance(s, (ast.Assign, ast.AnnAssign)) and s.value is not None:
                 tg = s.targets[0] if isinstance(s, ast.Assign) and len(s.targets) == 1 else (s.target if isinstance(s, ast.AnnAssign) else None)
-                pure = all(isinstance(c.func, ast.Name) and c.func.id in ("isinstance", "len", "any", "all", "type", "hasattr", "getattr") for c in ast.walk(s.value) if isinstance(c, ast.Call))
-                if isinstance(tg, ast.Name) and stores.get(tg.id) == 1 and tg.id not in fi.params and pure and not conds:
+                # the expression is only *named*: substituting it is sound for deterministic, effect-free expressions; calls
+                # of container mutators and of visit / generic_visit are not that
+                pure = not any(isinstance(c.func, ast.Attribute) and c.func.attr in ("append", "extend", "pop", "remove", "insert", "clear", "update", "add", "visit", "generic_visit", "setdefault", "popitem", "sort", "reverse") for c in ast.walk(s.value) if isinstance(c, ast.Call))
+                if isinstance(tg, ast.Name) and stores.get(tg.id) == 1 and tg.id not in fi.params and pure:
                     env[tg.id] = sub(s.value)
                     continue
                 return None
